@@ -195,6 +195,20 @@ def measurement_model(seed, n_per):
             ref = ref + e.calc_chi2()
         if tot != ref:
             fails.append({'edge': 'graph', 'law': 'graph chi2 is not the sum of the edge chi2 in list order', 'total': float(tot), 'sum': float(ref)})
+            continue
+        # the same Graph object again after its state was changed through public attributes: chi2 must follow
+        if es:
+            for e in es:
+                e.information = 2.0 * e.information
+            tot2 = g.calc_chi2()
+            if not abs(tot2 - 2 * tot) <= 1e-9 * abs(2 * tot) + 1e-300:
+                fails.append({'edge': 'graph', 'law': 'after doubling every information matrix of an already evaluated graph, calc_chi2() returns %r instead of %r (stale value)' % (float(tot2), float(2 * tot))})
+                continue
+            for e in es:
+                e.estimate = e.vertices[1].pose - e.vertices[0].pose
+            tot3 = g.calc_chi2()
+            if not abs(tot3) <= 1e-12 * (1 + abs(tot)):
+                fails.append({'edge': 'graph', 'law': 'after making every measurement consistent with the vertices of an already evaluated graph, calc_chi2() returns %r instead of 0' % float(tot3)})
     return evals, fails
 
 
